@@ -1252,7 +1252,7 @@ type filterContentReader struct {
 
 func (c *filterContentReader) Read(p []byte) (int, error) {
 	n, err := c.ReadCloser.Read(p)
-	if err != nil && !errors.Is(err, io.EOF) && !IsMalformed(err) {
+	if err != nil && err != io.EOF && !IsMalformed(err) {
 		err = &MalformedFileError{Err: err}
 	}
 	return n, err
